@@ -4,6 +4,7 @@ import CC.Spec.Cover
 import CC.Model.Sym
 import CC.Model.Mac
 import CC.Model.Wire
+import CC.Model.Shape
 import CC.Model.WireLen
 import CC.Model.Dict
 /-! # Line-protocol driver for the model
@@ -618,6 +619,38 @@ def step (st : St) (line : String) : St × String :=
         match (policyOf p).bind m.structure_.encRights with
         | .error e => (st, errLine e)
         | .ok rs => (st, "ok " ++ rightsStr rs)
+  | ["wire", ty, cfg, a, h] =>
+    -- as below, and: has the object the real code serialised the shape of `toWire` of the model's own symbolic key?
+    -- (leaf bytes forgotten, hash-map order canonical: `CC.Model.Shape`; ties `CC.Model.Embed` to the code)
+    let c := if cfg == "p256" then Wire.cfgP256 else Wire.cfgC25519
+    let hk : Option (Char × Nat) := match h.toList with
+      | k :: rest => (String.ofList rest).toNat?.map (fun i => (k, i))
+      | [] => none
+    match optBytes a, hk with
+    | some (some bs), some (kind, i) =>
+      let res : Option (Nat × Wire.Bytes × Bool) :=
+        match ty, kind with
+        | "msk", 'M' => (Wire.deserialize (Wire.msk c) bs).map (fun v => (Wire.lenMsk c v, Wire.encMsk v,
+            match getSlot st.msks i with
+            | some m => decide (Shape.msk v = Shape.msk (if cfg == "p256" then m.toWire zeroLeavesP256 else m.toWire zeroLeavesC25519))
+            | none => false))
+        | "mpk", 'K' => (Wire.deserialize (Wire.mpk c) bs).map (fun v => (Wire.lenMpk c v, Wire.encMpk v,
+            match getSlot st.mpks i with
+            | some m => decide (Shape.mpk v = Shape.mpk (if cfg == "p256" then m.toWire zeroLeavesP256 else m.toWire zeroLeavesC25519))
+            | none => false))
+        | "usk", 'U' => (Wire.deserialize (Wire.usk c) bs).map (fun v => (Wire.lenUsk c v, Wire.encUsk v,
+            match getSlot st.usks i with
+            | some m => decide (Shape.usk v = Shape.usk (if cfg == "p256" then m.toWire zeroLeavesP256 else m.toWire zeroLeavesC25519))
+            | none => false))
+        | "struct", 'S' => (Wire.deserialize Wire.struct_ bs).map (fun v => (Wire.lenStruct v, Wire.encStruct v,
+            match getSlot st.msks i with
+            | some m => decide (Shape.struct_ v = Shape.struct_ m.structure_.toWire)
+            | none => false))
+        | _, _ => none
+      match res with
+      | none => (st, "err Deserialize")
+      | some (n, re, sh) => (st, "ok len=" ++ toString n ++ " rt=" ++ (if re = bs then "1" else "0") ++ " shape=" ++ (if sh then "1" else "0"))
+    | _, _ => (st, "bad-op")
   | ["wire", ty, cfg, a] =>
     -- decode the serialised object, re-encode it: accepted? announced length? byte-exact round trip?
     let c := if cfg == "p256" then Wire.cfgP256 else Wire.cfgC25519
